@@ -617,10 +617,25 @@ func (w *watch) watch(fsw *fsnotify.Watcher, m *sync.Mutex, refresh func() error
 			verifPoint("watch.handled", m, event.Name, event.Op.String())
 			m.Unlock()
 
-		case _, ok := <-watch.Errors:
+		case err, ok := <-watch.Errors:
 			if !ok {
 				return
 			}
+			if !errors.Is(err, fsnotify.ErrEventOverflow) {
+				continue
+			}
+			// The kernel has dropped events. We can't tell which ones:
+			// renew all watches and rescan.
+			m.Lock()
+			if w.watcher == watch {
+				dirs := make([]string, 0, len(w.tracked))
+				for dir := range w.tracked {
+					dirs = append(dirs, dir)
+				}
+				w.update(dirErrors, dirs...)
+				_ = refresh()
+			}
+			m.Unlock()
 		}
 	}
 }
